@@ -42,11 +42,14 @@ impl Dispatcher for Recorder {
 #[derive(Clone)]
 pub struct RecorderFactory {
   log: Log,
+  /// the connection's transmitter, handed out so that the suite can queue outbound frames between input chunks
+  tx: Arc<Mutex<Option<ConnTx>>>,
 }
 
 #[async_trait::async_trait]
 impl DispatcherFactory<Recorder> for RecorderFactory {
-  async fn create(&mut self, _handler: usize, _tx: ConnTx) -> Recorder {
+  async fn create(&mut self, _handler: usize, tx: ConnTx) -> Recorder {
+    *self.tx.lock().unwrap() = Some(tx);
     Recorder { log: self.log.clone() }
   }
   async fn bootstrap(&mut self) -> anyhow::Result<()> {
@@ -66,7 +69,7 @@ pub fn conn_config(cap: u32, max_payload: u32, budget: u64) -> narwhal_common::c
     authenticate_timeout: Duration::from_secs(36000),
     payload_read_timeout: Duration::from_secs(36000),
     payload_pool_memory_budget: budget,
-    outbound_message_queue_size: 64,
+    outbound_message_queue_size: 4096,
     request_timeout: Duration::from_secs(36000),
     max_inflight_requests: 100_000,
     rate_limit: 0,
@@ -78,15 +81,23 @@ pub async fn run_impl(cap: u32, max_payload: u32, budget: u64, chunks: &[Vec<u8>
   let log: Log = Arc::new(Mutex::new(Vec::new()));
   let mng: ConnManager<C2sService> = ConnManager::new(conn_config(cap, max_payload, budget));
   let (mut a, b) = tokio::io::duplex(1 << 22);
-  let f = RecorderFactory { log: log.clone() };
+  let txslot: Arc<Mutex<Option<ConnTx>>> = Arc::new(Mutex::new(None));
+  let f = RecorderFactory { log: log.clone(), tx: txslot.clone() };
   let task = tokio::task::spawn_local(async move {
     mng.run_connection(b.compat(), f).await;
   });
   let mut closed_early = false;
-  for c in chunks {
+  for (i, c) in chunks.iter().enumerate() {
     if a.write_all(c).await.is_err() {
       closed_early = true;
       break;
+    }
+    tokio::time::sleep(Duration::from_millis(1)).await;
+    // outbound traffic between two input segments: the connection loop's `select!` then takes its write branch and
+    // drops the pending read of a half-received line — which must not lose what was already read
+    // (fewer frames than the outbound queue holds: the loop does not write while it is reading a payload)
+    if i < 3000 && let Some(tx) = txslot.lock().unwrap().clone() {
+      tx.send_message(Message::Ping(narwhal_protocol::PingParameters { id: 1_000_000 + i as u32 }));
     }
     tokio::time::sleep(Duration::from_millis(1)).await;
   }
@@ -106,7 +117,8 @@ pub async fn run_impl(cap: u32, max_payload: u32, budget: u64, chunks: &[Vec<u8>
     Ok(Err(e)) => e.is_panic(),
     _ => false,
   };
-  let text = String::from_utf8_lossy(&out).to_string();
+  // the frames queued above are not part of the observation
+  let text: String = String::from_utf8_lossy(&out).split_inclusive('\n').filter(|l| !(l.starts_with("PING id=1") && l.trim_end().len() == "PING id=1000000".len())).collect();
   let mut evs: Vec<String> = log.lock().unwrap().clone();
   let end = if panicked {
     "E:PANIC".to_string()
